@@ -111,3 +111,31 @@ def pmap(fn, items, chunk=None, force=False):
     if len(items) < 64 and not force:
         return [fn(x) for x in items]
     return pool().map(fn, items, chunksize=chunk or max(1, min(2000, len(items) // 64)))
+
+
+FRESH_SCRIPT = r"""
+import sys, json
+sys.path.insert(0, %r); sys.path.insert(0, %r)
+from harness import obs
+src = json.load(open(sys.argv[1]))
+print(json.dumps(obs.experiment(src['i'], tuple(src['skip']))))
+"""
+
+
+def fresh_experiment(src, skip=()):
+    """the A/B/C experiment in a FRESH interpreter (nothing an earlier parse did can influence it)"""
+    import json
+    import subprocess
+    import tempfile
+    root = os.path.dirname(os.path.dirname(os.path.abspath(__file__)))
+    repo = os.environ.get('VERIF_REPO', '/repo')
+    with tempfile.TemporaryDirectory(dir=os.path.join(root, 'build')) as d:
+        with open(os.path.join(d, 'in.json'), 'w') as f:
+            json.dump({'i': src, 'skip': list(skip)}, f)
+        with open(os.path.join(d, 'run.py'), 'w') as f:
+            f.write(FRESH_SCRIPT % (root, repo))
+        p = subprocess.run([sys.executable, os.path.join(d, 'run.py'), os.path.join(d, 'in.json')], stdout=subprocess.PIPE,
+                           stderr=subprocess.PIPE, text=True, timeout=120, env=dict(os.environ, PYTHONHASHSEED='0'))
+        if p.returncode != 0:
+            return None
+        return json.loads(p.stdout.strip().splitlines()[-1])
